@@ -485,7 +485,7 @@ def _mirror(cases, results, workdir, label, case_timeout, stack_mib, extra_env):
         # (one worker thread serves hundreds of cases), so whatever the code under test keeps per thread or per process - a
         # memo, a counter, a pool, an id that is reused - has a history there and none here; the records must be identical
         replicas.append(("alone", "dbg", extra_env))
-    if MIRROR.get("environment"):
+    if MIRROR.get("environment") and label not in MIRROR.get("environment_skip_labels", ()):
         # the same DEBUG build in another process environment: a time zone with a 30-minute daylight-saving shift and an
         # odd base offset, a locale with unusual case mapping, another working directory. Nothing these checks generate reads
         # the clock, and none of them mixes date-times with and without a zone (the one place where the repository
